@@ -120,6 +120,13 @@ def scn_case(ctx):
     ctx.log(f"reference status={ref['status'][:60]} K={K} rows={ref['rows']} steps={ref['steps']} tdigests={ref['tdigests'][1:]}")
     if ref["status"] != "returned":
         ctx.probes["reference_run_raised"] += 1
+        # does the run fail only because intermediate writing is on?
+        if "plain" not in ref:
+            fr0 = crashsim.fault_run(cfg, desc["rng_seed"], clock, _src(), None, write_stages=False, give_output=True, outname=outname, compute_kw=compute_kw)
+            ref["plain"] = fr0["report"]["status"]
+        ctx.log(f"same configuration with staging off: {ref['plain'][:60]}")
+        if ref["plain"] == "returned":
+            ctx.violate("c17.staging_breaks_run", f"with intermediate writing on the run raises ({ref['status'][:200]}); the same configuration with it off returns", "staging-on-raises")
         return
     if ref["rows"] == 0:
         ctx.probes["zero_survivor_config"] += 1
